@@ -81,6 +81,16 @@ def p_count(h, d, n=3):
     return bp.count([d["det"]], num=n)
 
 
+def p_count_mixed(h, d):
+    """library count over a triggerable detector and a read-only signal (no trigger method) listed LAST, with a delay
+    between the points (so that a status failing late has an unrelated sleep after a checkpoint to land in)"""
+    return bp.count([d["det"], d["sig"]], num=3, delay=0.3)
+
+
+def p_count_mixed_first(h, d):
+    return bp.count([d["sig"], d["det"]], num=3, delay=0.3)
+
+
 def p_scan(h, d, n=3):
     return bp.scan([d["det"]], d["m1"], 0, 2, n)
 
@@ -914,6 +924,8 @@ def _strip_key(plan):
 
 CORPUS = {
     "count": p_count,
+    "count_mixed": p_count_mixed,
+    "count_mixed_first": p_count_mixed_first,
     "scan": p_scan,
     "grid": p_grid,
     "list_scan": p_list_scan,
